@@ -580,6 +580,7 @@ fn cmd_sweep(a: &Args) {
             sources,
             clients: vec![ops],
             schedule: None,
+            thread_style: (perm % 4) as u8,
         };
         let r = run_scenario(&sc);
         total.add(&r.stats);
